@@ -8,6 +8,9 @@
     xsd.lexok <type> x<hex>                → true | false    (Spec: lexical space, string taken as is)
     xsd.collapse x<hex>                    → x<hex>          (model of xsdutil.WhiteSpaceCollapse)
     xsd.speccollapse x<hex>                → x<hex>          (Spec.collapse)
+    xsd.pf <bits> x<hex>                   → ok | err        (model of strconv.ParseFloat: accepted and in range)
+    xsd.pi <bits> x<hex>                   → ok <int> | err  (model of strconv.ParseInt base 10)
+    xsd.pu <bits> x<hex>                   → ok <nat> | err  (model of strconv.ParseUint base 10)
 -/
 import RdfModel.Driver.Wire
 import RdfModel.Model.Xsd
@@ -56,6 +59,18 @@ def handle (op : String) (args : List String) : Option String :=
   | "speccollapse", [inp] => do
     let bs ← bytesTok inp
     pure (tokOfBytes (Spec.Xsd.collapse bs))
+  | "pf", [bits, inp] => do
+    let b ← bits.toNat?
+    let bs ← bytesTok inp
+    pure (match parseFloat bs b with | .ok _ => "ok" | .error _ => "err")
+  | "pi", [bits, inp] => do
+    let b ← bits.toNat?
+    let bs ← bytesTok inp
+    pure (match parseInt bs 10 b with | .ok v => "ok " ++ toString v | .error _ => "err")
+  | "pu", [bits, inp] => do
+    let b ← bits.toNat?
+    let bs ← bytesTok inp
+    pure (match parseUint bs 10 b with | .ok v => "ok " ++ toString v | .error _ => "err")
   | _, _ => none
 
 end RdfModel.Driver.Xsd
